@@ -55,7 +55,9 @@ enum {
 #define NS_TO_MS(e) ((int64_t)(e) / 1000000)
 #define NS_TO_S(e)  ((int64_t)(e) / 1000000000)
 #define T_MAX ((int64_t)1 << 61)     /* global assumption: all times below 2^61 ns (73 years) */
-#define SZ_MAX (1 << 30)             /* global assumption: int byte quantities at most 2^30 */
+#define TE_MAX ((int64_t)1 << 62)     /* timer expiries: sums of two times */
+#define SZ_MAX (1 << 30)             /* global assumption: int byte quantities (queue occupancy, capacities) at most 2^30 */
+#define PKT_MAX (1 << 28)            /* global assumption: a single packet's payload at most 2^28 bytes */
 
 extern int64_t g_now;                /* the virtual clock (verified: high_resolution_clock.cpp) */
 #ifndef VF_CLOCK_UNIT
@@ -116,7 +118,8 @@ static inline void fn_invoke(fn_t tok, int ec, size_t n)
 #define NO_INLINE (g_inline_calls == OLD(g_inline_calls))
 #define NO_DESTROY (g_destroyed == OLD(g_destroyed))
 
-#define GHOST_BOUNDS (g_posted_count < 1000000 && g_inline_calls < 1000000 && g_destroyed < 1000000 && g_now >= 0 && g_now <= T_MAX)
+/* ghost counters are size_t and may wrap (no unsigned-overflow check): only the clock has a range */
+#define GHOST_BOUNDS (g_now >= 0 && g_now <= T_MAX)
 
 /* uninterpreted floating point (see DESIGN.md section 2): which operands flow into which operation */
 double __CPROVER_uninterpreted_fdiv(double, double);
